@@ -105,6 +105,10 @@ class C12(Prop):
         for lay in lays:
             autos.append({"op": "autocreate", "size": str(50000 + len(lay)), "layout": lay, "version": 2, "via": "lib",
                           "clauses": ["C12.auto"]})
+        # thousands of tiny files next to one big one: the same total gives the same choice
+        for k, e in enumerate((15, 17) if tier != "thorough" else (15, 16, 17, 18)):
+            autos.append({"op": "autocreate", "size": str(1000 * 2 ** e + 1), "layout": "crowd", "version": 1 + k % 3,
+                          "via": "lib", "clauses": ["C12.auto"]})
         out += sorted(autos, key=lambda c: (int(c["size"]), c["op"] != "auto"))
         for c in out:
             c["grp"] = "auto" if c["op"] in ("auto", "autocreate") else "n"
